@@ -31,11 +31,12 @@ import vlib
 from vlib import VERIF
 
 SPEC = os.path.join(VERIF, "spec", "Lattice")
-TYPES = ["pin", "slider", "weld", "universal", "cylinder", "bendstretch", "planar", "translation", "gimbal", "bushing", "ball", "free", "euler5"]
+TYPES = ["pin", "slider", "weld", "universal", "cylinder", "bendstretch", "planar", "translation", "gimbal", "bushing", "ball", "free", "euler5", "spherical", "ellipsoid"]
 KINDS = {"pin": "a", "slider": "l", "weld": "", "universal": "aa", "cylinder": "al", "bendstretch": "al", "planar": "all",
-         "translation": "lll", "gimbal": "aaa", "bushing": "aaalll", "ball": "cccc", "free": "cccclll", "balle": "aaa", "freee": "aaalll", "euler5": "aaall"}
+         "translation": "lll", "gimbal": "aaa", "bushing": "aaalll", "ball": "cccc", "free": "cccclll", "balle": "aaa", "freee": "aaalll", "euler5": "aaall",
+         "spherical": "aal", "ellipsoid": "cccc", "ellipsoide": "aaa"}
 FB_TYPES = ("pin", "slider", "universal", "cylinder", "planar", "translation", "gimbal", "bushing", "euler5")
-NU = {t: (3 if t == "ball" else 6 if t == "free" else len(KINDS[t])) for t in KINDS}
+NU = {t: (3 if t in ("ball", "ellipsoid") else 6 if t == "free" else len(KINDS[t])) for t in KINDS}
 # rational unit quaternions (numerators over 5^e) and what they cost in powers of 5
 QUATS = [([1, 0, 0, 0], 0, 0), ([0, 1, 0, 0], 0, 0), ([0, 0, 0, 1], 0, 0), ([0, 0, -1, 0], 0, 0),
          ([3, 4, 0, 0], 1, 2), ([3, 0, -4, 0], 1, 2), ([0, 3, 0, 4], 1, 2), ([4, 0, 0, 3], 1, 2), ([0, 0, 3, -4], 1, 2),
@@ -106,7 +107,7 @@ class Gen:
         q = []
         for idx, kd in enumerate(KINDS[typ]):
             if kd == "a":
-                a, c = self.angle(budget, middle=(idx == 1 and typ in ("universal", "gimbal", "bushing", "balle", "freee", "euler5")))
+                a, c = self.angle(budget, middle=(idx == 1 and typ in ("universal", "gimbal", "bushing", "balle", "freee", "euler5", "ellipsoide")))
                 budget -= c
                 q.append(a)
             elif kd == "l":
@@ -122,7 +123,7 @@ class Gen:
         q2, b2 = [], budget2
         for idx, kd in enumerate(KINDS[typ]):
             if kd == "a":
-                a, c = self.angle(b2, middle=(idx == 1 and typ in ("universal", "gimbal", "bushing", "balle", "freee", "euler5")))
+                a, c = self.angle(b2, middle=(idx == 1 and typ in ("universal", "gimbal", "bushing", "balle", "freee", "euler5", "ellipsoide")))
                 b2 -= c
                 q2.append(a)
             elif kd == "l":
@@ -134,7 +135,14 @@ class Gen:
             q2 = [{"k": v, "m": e} for v in comp] + q2
         self.left2 = b2
         self.last_fit = (q2, [self.r.randint(-2, 2) for _ in range(NU[typ])])
-        d = {"parent": parent, "type": typ, "rev": int(rev), "RF": RF, "pF": pF, "RM": RM, "pM": pM,
+        # construction options (used by SphericalCoords and Ellipsoid only)
+        opt = {"azOff": {"k": self.r.randrange(4), "m": 0}, "azNeg": self.r.randint(0, 1), "zeOff": {"k": self.r.randrange(4), "m": 0}, "zeNeg": self.r.randint(0, 1),
+               "axis": self.r.choice("xz"), "rNeg": self.r.randint(0, 1), "radii": [self.r.randint(1, 3) for _ in range(3)]}
+        if typ == "spherical":      # a non-zero radius keeps the coordinates regular
+            for qq in (q, q2):
+                if qq[2]["k"] == 0:
+                    qq[2]["k"] = self.r.choice([-2, -1, 1, 2])
+        d = {"parent": parent, "type": typ, "rev": int(rev), "RF": RF, "pF": pF, "RM": RM, "pM": pM, "opt": opt,
              "mass": self.r.choice([2, 3, 2, 3, 5, 1]), "com": [self.r.randint(-1, 2) for _ in range(3)] if self.r.random() < 0.8 else [0, 0, 0],
              "ic": self.r.choice(INERTIAS)}
         return d, q, u, budget
@@ -144,9 +152,9 @@ class Gen:
         desc, qs, us, left, q2s, u2s = [], [], [], {0: budget}, [], []
         left2 = {0: 2}
         # representation: with probability 1/4 the whole model uses the Euler-angle option (Ball / Free then have angle coordinates)
-        euler = int(self.r.random() < 0.25 and any(t[1] in ("ball", "free") for t in spec))
+        euler = int(self.r.random() < 0.25 and any(t[1] in ("ball", "free", "ellipsoid") for t in spec))
         if euler:
-            spec = [(p, {"ball": "balle", "free": "freee"}.get(t, t), rv, f, m) for (p, t, rv, f, m) in spec]
+            spec = [(p, {"ball": "balle", "free": "freee", "ellipsoid": "ellipsoide"}.get(t, t), rv, f, m) for (p, t, rv, f, m) in spec]
         for i, (parent, typ, rev, fcls, mcls) in enumerate(spec, 1):
             d, q, u, b = self.body(parent, typ, rev, fcls, mcls, left[parent], min(left[parent], left2[parent]))
             left[i] = b
@@ -204,17 +212,19 @@ def generate(tier, seed):
     r = g.r
     cfgs = []
     # systematic family: every type x direction x frame specialisation, alone, below a pin, above a pin
+    classes = (("i", "i"), ("t", "t"), ("g", "g"), ("g", "i"), ("i", "g"))
     for typ in TYPES:
         for rev in (0, 1):
             if typ == "weld" and rev:
                 continue
-            for fcls, mcls in (("i", "i"), ("t", "t"), ("g", "g"), ("g", "i"), ("i", "g")):
-                for dyn in (0, 1, 1):       # the dynamics configurations twice, with independent draws
+            for fcls, mcls in classes:             # alone: every frame specialisation, kinematics once and dynamics twice
+                for dyn in (0, 1, 1):
+                    cfgs.append(g.config([(0, typ, rev, fcls, mcls)], dyn, 1 if dyn else 2))
+            for fcls, mcls in r.sample(classes, 2 if tier == "quick" else 5):     # below and above a pin
+                for dyn in (0, 1):
                     b = 1 if dyn else 2
-                    cfgs.append(g.config([(0, typ, rev, fcls, mcls)], dyn, b))
                     cfgs.append(g.config([(0, "pin", 0, "g", "t"), (1, typ, rev, fcls, mcls)], dyn, b))
-                    if typ != "weld" or True:
-                        cfgs.append(g.config([(0, typ, rev, fcls, mcls), (1, "pin", r.randrange(2), "t", "g")], dyn, b))
+                    cfgs.append(g.config([(0, typ, rev, fcls, mcls), (1, "pin", r.randrange(2), "t", "g")], dyn, b))
     # random trees
     nrand = 150 if tier == "quick" else 2500
     for _ in range(nrand):
@@ -231,31 +241,48 @@ def generate(tier, seed):
     return cfgs
 
 
-def evaluate(cfgs, work, cov):
-    """TLC evaluation of the spec for every configuration; configurations whose exact arithmetic leaves TLC's
-    32-bit integers are skipped (counted)."""
-    outs, skipped, start = {}, [], 0
-    while start < len(cfgs):
-        pfile = os.path.join(work, "cfgs.ndjson")
+def evaluate_chunk(cfgs, lo, hi, work, tag):
+    """TLC evaluation of cfgs[lo:hi]; returns (outs {index: result}, skipped [indices], bad, distinct, states)"""
+    outs, skipped, start, distinct, states = {}, [], lo, 0, 0
+    while start < hi:
+        pfile = os.path.join(work, "cfgs-%s.ndjson" % tag)
         with open(pfile, "w") as f:
-            for c in cfgs[start:]:
+            for c in cfgs[start:hi]:
                 f.write(json.dumps(c) + "\n")
-        r = vlib.run_tlc(SPEC, "LatticeEval.tla", "LatticeEval.cfg", "lattice", workers=1, timeout=3000, xmx="8g", env={"TRACE": pfile})
+        r = vlib.run_tlc(SPEC, "LatticeEval.tla", "LatticeEval.cfg", "lattice-" + tag, workers=1, timeout=3000, xmx="4g", env={"TRACE": pfile})
         got = [json.loads(s) for s in vlib.tla_strings(r.out, "OUT ")]
         for o in got:
             outs[start + o["i"] - 1] = o["r"]
-        cov["states"] += r.distinct
-        cov["transitions"] += r.states
+        distinct += r.distinct
+        states += r.states
         if r.violated:
-            return outs, skipped, (start + len(got) - 1, r.violated)
-        if len(got) == len(cfgs) - start:
+            return outs, skipped, (start + len(got) - 1, r.violated), distinct, states
+        if len(got) == hi - start:
             break
         if "verflow" in r.out or "out of range" in r.out.lower():
             skipped.append(start + len(got))
             start = start + len(got) + 1
             continue
         raise vlib.Infra("LatticeEval failed: %s\n%s" % (r.error, r.out[-2000:]))
-    return outs, skipped, None
+    return outs, skipped, None, distinct, states
+
+
+def evaluate(cfgs, work, cov, tag="x"):
+    """TLC evaluation of the spec for every configuration (several TLC processes side by side); configurations whose
+    exact arithmetic leaves TLC's 32-bit integers are skipped (counted)."""
+    from concurrent.futures import ThreadPoolExecutor
+    k = max(1, min(8, len(cfgs) // 40))
+    bounds = [(len(cfgs) * i // k, len(cfgs) * (i + 1) // k) for i in range(k)]
+    with ThreadPoolExecutor(max_workers=k) as ex:
+        parts = list(ex.map(lambda ib: evaluate_chunk(cfgs, ib[1][0], ib[1][1], work, "%s-%d" % (tag, ib[0])), enumerate(bounds)))
+    outs, skipped, bad = {}, [], None
+    for o, sk, b, d, st in parts:
+        outs.update(o)
+        skipped += sk
+        bad = bad or b
+        cov["states"] += d
+        cov["transitions"] += st
+    return outs, skipped, bad
 
 
 def solve(M, b):
@@ -333,19 +360,23 @@ def compare(cfg, want, got):
     poses_ok = chk("C05", "pose", w["X"], got["X"])
     for b, (fw, fg) in enumerate(zip(w["fit"], got["fit"])):
         typ = cfg["desc"][b]["type"] + ("-rev" if cfg["desc"][b]["rev"] else "")
-        chk("C05", "setQToFitTransform/" + typ, [fw["R"], fw["p"]], [fg["R1"], fg["p1"]])
-        chk("C05", "setQToFitRotation-then-Translation/" + typ, [fw["R"], fw["p"]], [fg["R2"], fg["p2"]])
-        chk("C05", "setUToFitVelocity/" + typ, [fw["w"], fw["v"]], [fg["w1"], fg["v1"]])
+        ell = cfg["desc"][b]["type"].startswith("ellipsoid")
+        # Ellipsoid: the translation fit only aims the M origin roughly in the requested direction (its own comment: "we can at
+        # least obtain a translation in the *direction*") and overrides the fitted rotation; the linear-velocity fit is marked
+        # "ONLY RIGHT FOR A SPHERE" in the code.  Their own call sites, so that other failures are still reported.
+        chk("C05", "setQToFitTranslation/ellipsoid-direction-only" if ell else "setQToFitTransform/" + typ, [fw["R"], fw["p"]], [fg["R1"], fg["p1"]])
+        chk("C05", "setQToFitTranslation/ellipsoid-direction-only" if ell else "setQToFitRotation-then-Translation/" + typ, [fw["R"], fw["p"]], [fg["R2"], fg["p2"]])
+        chk("C05", "setUToFitLinearVelocity/ellipsoid-sphere-only" if ell else "setUToFitVelocity/" + typ, [fw["w"], fw["v"]], [fg["w1"], fg["v1"]])
         # RigidBodyNode::setUToFitLinearVelocity on a REVERSED mobilizer assumes zero angular velocity (a TODO in the
         # code): its own call site, so that any other failure of the sequence is still reported
         rev_lin = cfg["desc"][b]["rev"] and any(abs(x) > 0 for x in fw["w"]) and "l" in KINDS[cfg["desc"][b]["type"]]
-        chk("C05", "setUToFitLinearVelocity/reversed-with-angular-velocity" if rev_lin else "setUToFitAngular-then-LinearVelocity/" + typ,
+        chk("C05", "setUToFitLinearVelocity/ellipsoid-sphere-only" if ell else "setUToFitLinearVelocity/reversed-with-angular-velocity" if rev_lin else "setUToFitAngular-then-LinearVelocity/" + typ,
             [fw["w"], fw["v"]], [fg["w2"], fg["v2"]])
     vel_ok = chk("C03", "velocity", w["V"], got["V"])
     # representation independence: FunctionBased route / Euler option are already inside X, V above; the converted state:
     chk("C06", "pose-after-representation-conversion", w["X"], got["Xconv"])
     chk("C06", "velocity-after-representation-conversion", w["V"], got["Vconv"])
-    special = [d["type"] + ("-fb" if d.get("fb") else "") + ("-rev" if d["rev"] else "") for d in cfg["desc"] if d.get("fb") or d["rev"] or d["type"] in ("balle", "freee")]
+    special = [d["type"] + ("-fb" if d.get("fb") else "") + ("-rev" if d["rev"] else "") for d in cfg["desc"] if d.get("fb") or d["rev"] or d["type"] in ("balle", "freee", "ellipsoide")]
     if special:     # the same comparisons, attributed to C06 when a non-default representation / route / direction is involved
         chk("C06", "pose/" + "+".join(sorted(set(special))), w["X"], got["X"])
         chk("C06", "velocity/" + "+".join(sorted(set(special))), w["V"], got["V"])
@@ -470,7 +501,7 @@ def run(pid, tier, rep, replay=None):
                                    extra=["-I" + os.path.join(VERIF, "harness")])
     cov = {"states": 0, "transitions": 0, "traces_validated_against_impl": 0, "samples": []}
     cfgs = [json.load(open(replay))["replay"]["config"]] if replay else generate(tier, vlib.seed())
-    want, skipped, bad = evaluate(cfgs, work, cov)
+    want, skipped, bad = evaluate(cfgs, work, cov, pid)
     if bad:
         raise vlib.Infra("the specification's own identity %s fails at configuration %s" % (bad[1], json.dumps(cfgs[bad[0]])))
     # a model whose EXACT mass matrix is singular (massless bodies carrying more mobilities than their massive
